@@ -154,21 +154,21 @@ def GoodEntry (c : Cfg δ) (gso : Bool) (pk : List (Pkt δ)) (lo hi : Nat) (e : 
   lo ≤ e.start ∧ e.start + e.cnt ≤ hi ∧ RunShape c.maxSeg pk e ∧
   (∀ p, pk[e.start]? = some p → c.routable p.dst = true) ∧ (gso = false → e.cnt = 1)
 
-theorem pack_spec (c : Cfg δ) (gso : Bool) (pk : List (Pkt δ)) (i entry iovIdx : Nat) (hi : i ≤ pk.length) :
-    let r := pack c gso pk i entry iovIdx
-    i ≤ r.2 ∧ r.2 ≤ pk.length ∧ (∀ e ∈ r.1, GoodEntry c gso pk i r.2 e) ∧ r.1.Pairwise Before ∧
-    r.1.length + entry ≤ max c.n entry := by
-  fun_induction pack c gso pk i entry iovIdx with
-  | case1 i entry iovIdx h budget hb => simp; omega
-  | case2 i entry iovIdx h budget hb pr hr => simp; omega
-  | case3 i entry iovIdx h budget hb pr hr hroute r ih =>
+theorem pack_spec (c : Cfg δ) (gso : Bool) (pk : List (Pkt δ)) (i entry iovIdx : Nat) (ctl : Ctl) (hi : i ≤ pk.length) :
+    let r := pack c gso pk i entry iovIdx ctl
+    i ≤ r.next ∧ r.next ≤ pk.length ∧ (∀ e ∈ r.ents, GoodEntry c gso pk i r.next e) ∧ r.ents.Pairwise Before ∧
+    r.ents.length + entry ≤ max c.n entry := by
+  fun_induction pack c gso pk i entry iovIdx ctl with
+  | case1 i entry iovIdx ctl h budget hb => simp; omega
+  | case2 i entry iovIdx ctl h budget hb pr hr => simp; omega
+  | case3 i entry iovIdx ctl h budget hb pr hr hroute r ih =>
     have hps := planRun_spec gso c.maxSeg pk i budget h.2 (by omega)
     simp only at hps
     rw [show planRun gso c.maxSeg pk i budget = pr from rfl] at hps
     obtain ⟨s1, s2, s3⟩ := hps
     have hle : i + pr.1 ≤ pk.length := s1.2.1
     have ih := ih hle
-    rw [show pack c gso pk (i + pr.1) (entry + 1) (iovIdx + pr.1) = r from rfl] at ih
+    rw [show pack c gso pk (i + pr.1) (entry + 1) (iovIdx + pr.1) (writeEntryCmsg ctl entry pr.1 pr.2) = r from rfl] at ih
     obtain ⟨b1, b2, b3, b4, b5⟩ := ih
     have hpos : 1 ≤ pr.1 := s1.1
     refine ⟨by simp only; omega, b2, ?_, ?_, ?_⟩
@@ -184,7 +184,7 @@ theorem pack_spec (c : Cfg δ) (gso : Bool) (pk : List (Pkt δ)) (i entry iovIdx
       have := (b3 f hf).1
       simp only [Before]; omega
     · simp only [List.length_cons]; omega
-  | case4 i entry iovIdx h budget hb pr hr hroute ih =>
+  | case4 i entry iovIdx ctl h budget hb pr hr hroute ih =>
     have hps := planRun_spec gso c.maxSeg pk i budget h.2 (by omega)
     simp only at hps
     rw [show planRun gso c.maxSeg pk i budget = pr from rfl] at hps
@@ -195,6 +195,6 @@ theorem pack_spec (c : Cfg δ) (gso : Bool) (pk : List (Pkt δ)) (i entry iovIdx
     intro e he
     obtain ⟨g1, g2, g3, g4, g5⟩ := b3 e he
     exact ⟨by omega, g2, g3, g4, g5⟩
-  | case5 i entry iovIdx h => simp; omega
+  | case5 i entry iovIdx ctl h => simp; omega
 
 end Nebula.Lemmas.Writebatch
